@@ -48,12 +48,13 @@ def state_case(rnd, removal=None, max_calls=10, family=None, malformed=0.07, iso
         classes.append('node_id_zero')
     if rnd.random() < 0.22:
         from props.base import shift_op
-        # negative instants; instants around 2^31, 2^61 and millisecond epochs (the OCaml driver moves native 63-bit integers) (integers are unbounded in Python)
-        d = rnd.choice([-rnd.randint(4, 15), -rnd.randint(4, 15), 2 ** 31 - 3, 1700000000000, 2 ** 61 - 4])
+        # negative instants; instants around 2^31, 2^61, millisecond epochs, and beyond the machine word (straddling sys.maxsize = 2^63 - 1, 2^64,
+        # 10^30, very negative): integers are unbounded in Python and in the model (the driver moves decimal text)
+        d = rnd.choice([-rnd.randint(4, 15), -rnd.randint(4, 15), 2 ** 31 - 3, 1700000000000, 2 ** 61 - 4, 2 ** 63 - 3, 2 ** 64 + 1, 10 ** 30, -(2 ** 63) - 2])
         hist = [tuple(shift_op(o, d)) for o in hist]
         classes.append('negative_instants' if d < 0 else 'huge_instants')
     return dict(directed=directed, removal=removal, hist=pre + hist, classes=classes,
-                family=family or rnd.choice(['int', 'int', 'str', 'tuple', 'sym']), functional=rnd.choice([0, 0, 0, 1, 1, 2]))
+                family=family or rnd.choice(['int', 'int', 'str', 'tuple', 'sym', 'fset', 'obj', 'float']), functional=rnd.choice([0, 0, 0, 1, 1, 2]))
 
 
 def known_nodes(hist, results=None):
